@@ -588,7 +588,11 @@ theorem minter_setMinter (w : World) (slot : Nat) (r : MinterRec) :
 
 
 /-- "After a governance status update on any minter, the status query returns exactly the supplied
-verified/blocked/explicit flags" — all 11 minters, all old states, all 8 flag combinations; never refused. -/
+verified/blocked/explicit flags". RESTATES THE DEFINITION: the model's `updateStatus` ignores the minter kind and the
+old status (`.ok ⟨v, b, e⟩`), so this is one `rfl`, not 11 obligations — a minter that forgets to save the status
+(the repaired defect F-C18a) would leave it "proved". The status clause is carried by the harness (Status monitors,
+8 flag combinations × 11 minters); proved content about status: `C18_status_world`, `C18_status_frame`,
+`C18_status_history`. -/
 theorem C18_status (k : MinterKind) (old : Status) (v b e : Bool) :
     updateStatus k old v b e = .ok ⟨v, b, e⟩ := rfl
 
@@ -611,7 +615,9 @@ theorem C18_status_world (e : Env) (w w' : World) (slot : Nat) (v b x : Bool) (m
     obtain ⟨h1, h2, h3⟩ := minter_setMinter w slot { r with status := ⟨v, b, x⟩ }
     exact ⟨r, rfl, h1, h2, h3⟩
 
-/-- status over histories: after any list of status updates the flags are those of the last one -/
+/-- status over histories: after any list of status updates the flags are those of the last one. Like `C18_status` this
+restates the model's definition of `updateStatus` (kind and old status ignored); the world-level history statement is
+`C18_status_history`. -/
 theorem C18_status_seq (k : MinterKind) (s0 : Status) (l : List (Bool × Bool × Bool)) :
     l.foldl (fun s f => match updateStatus k s f.1 f.2.1 f.2.2 with | .ok s' => s' | .error _ => s) s0
       = match l.getLast? with | some f => ⟨f.1, f.2.1, f.2.2⟩ | none => s0 := by
@@ -1081,9 +1087,10 @@ theorem C18_observed_offset (P : Params) (r : MinterRec) (now t : Nat)
 
 /-! ### values captured at creation stay -/
 
-/-- after ANY history, a base minter's price is still the `min_mint_price` its factory had when it was created, unless
-... nothing: no operation of the model rewrites a base minter's price (`setPrice` refuses base minters). Stated for one
-step; histories follow by induction with `C18_captured` for updates. -/
+/-- ONE STEP only: `setPrice` never succeeds on a base minter (so the price a base minter captured from its factory's
+`min_mint_price` at creation is not rewritten by that operation); governance updates leave minters untouched by
+`C18_captured`. The history-level statement ("after ANY history the price is still the creation-time one") would follow
+by induction over the op list but is NOT proved here. -/
 theorem C18_captured_base_price (P : Params) (r r' : MinterRec) (now price : Nat) (hk : r.kind = .base) :
     setPrice P r now price ≠ .ok r' := by
   simp [setPrice, hk, MinterKind.isVending, MinterKind.isOe, MinterKind.idx, bind, Except.bind, throw, throwThe,
@@ -1139,8 +1146,8 @@ theorem C18_updW_drift_only_when_model_accepts (P : Params) (u : AnyUpd) (acc : 
   | error x => cases acc <;> simp [hs] at h
   | ok P' => cases acc <;> simp [hs] at h; exact ⟨rfl, P', rfl⟩
 
-/-- Literal reading "the allowed code ids are a SET (no duplicates)": contradicted by the code (`Vec::dedup` removes only
-consecutive repeats). Full statement that does NOT hold: `∀ allowed add rm, allowed.Nodup → (applyIds allowed add rm).Nodup`.
+/-- Literal reading "the allowed code ids are a SET (no duplicates)": does not hold for the stored LIST (`Vec::dedup` removes
+only consecutive repeats) — recorded as an observation (DESIGN 13.3), not a finding: the set semantics hold. Full statement that does NOT hold: `∀ allowed add rm, allowed.Nodup → (applyIds allowed add rm).Nodup`.
 What holds is the set-level meaning, `C18_ids_set` (membership). Replayed on the real factories by the directed harness
 scenario `upd add=<sg0>,<sg0>` / `qids` (answer `ids=…,sg1,sg0` after `rm=sg0`, `add=sg0,sg0`) and corpus case
 `corpus/C18/ids-duplicate.txt`. -/
